@@ -9,7 +9,7 @@ FORMAT = ("[kind 0=token-bucket 1=AIMD-budget; p0..p5 (tb: max_tokens, initial_t
           "max_budget, deposit_amount, withdraw_amount, decrease factor num, den); npre; (code arg)*; nthreads; "
           "{ncalls; (code arg)*}*; nsched; thread-id*]  call codes 0 try_withdraw 1 deposit 2 balance() "
           "3 current_max(); each schedule entry = ONE atomic operation of that worker (finished workers are "
-          "skipped), afterwards worker 0 runs to completion, then worker 1, ... -> per entry [op 0 skip/1 load/"
+          "skipped), afterwards worker 0 runs to completion, then worker 1, ... -> return values of the prelude calls, per entry [op 0 skip/1 load/"
           "2 store/3 cas/4 rmw; return value of the call completed by this operation or -1; balance(); ceiling], "
           "per worker [atomic steps; return values (withdraw 0/1, deposit 2, reads: value)], [balance(); ceiling]")
 RULE = ("exhaustive schedules (all thread-id words up to a length covering every interleaving of the first "
@@ -161,7 +161,7 @@ def generate(rng, tier):
             init = rng.choice([0, 1, mx, mx, max(0, mx - 1), mx + 2])
             params = (mx, init)
             alpha = [W, W, D, D, B]
-            pre = []
+            pre = [rng.choice([W, D]) for _ in range(rng.choice([0, 0, 0, 2, mx]))]
         else:
             mx = rng.choice([1, 2, 3, 4, 8, 20, 100])
             mn = rng.choice([0, 1, mx // 2, mx])
@@ -194,16 +194,18 @@ def generate(rng, tier):
 def split_trace(s, t):
     kind, params, pre, progs, sched = parse(s)
     n = len(sched)
-    need = 4 * n + sum(1 + len(p) for p in progs) + 2
+    need = len(pre) + 4 * n + sum(1 + len(p) for p in progs) + 2
     if len(t) != need:
         return None
+    pre_rets = t[:len(pre)]
+    t = t[len(pre):]
     entries = [t[4 * i:4 * i + 4] for i in range(n)]
     pos = 4 * n
     per = []
     for p in progs:
         per.append((t[pos], t[pos + 1:pos + 1 + len(p)]))
         pos += 1 + len(p)
-    return entries, per, t[pos:pos + 2]
+    return entries, per, t[pos:pos + 2], pre_rets
 
 
 def seq_op(kind, params, bal, ceil, c):
@@ -228,7 +230,7 @@ def monitor(s, t):
     sp = split_trace(s, t)
     if sp is None:
         return "malformed or panicking run: %s" % t[:12]
-    entries, per, final = sp
+    entries, per, final, pre_rets = sp
     if kind == 0:
         mx, init = params[0], params[1]
         cost, amount, cap = 1, 1, max(mx, init)
@@ -236,14 +238,16 @@ def monitor(s, t):
     else:
         mn, mxb, amount, cost = params[0], params[1], params[2], params[3]
         cap, bal0 = mxb, mxb
-    # prelude (sequential) effects are not visible per step: account for them with the sequential
-    # meaning of the prelude on the initial state = what the first snapshot must be consistent with
-    pre_grants = 0
+    # the prelude ran alone before the workers: its grants and deposits count too
+    for c, r in zip(pre, pre_rets):
+        if (c == W and r not in (0, 1)) or (c == D and r != 2):
+            return "prelude call code %d returned %d" % (c, r)
+    pre_grants = sum(1 for c, r in zip(pre, pre_rets) if c == W and r == 1)
     pre_deps = sum(1 for c in pre if c == D)
     done_idx = [0] * len(progs)        # completed calls per worker
     begun = [False] * len(progs)       # current call has performed a step
-    grants = deposits_done = 0
-    seq_bal = None
+    grants = pre_grants
+    deposits_done = pre_deps
     for k, (op, done, bal, ceil) in enumerate(entries):
         tid = sched[k]
         if op == 0:
@@ -275,19 +279,12 @@ def monitor(s, t):
         # deposits that may already have added their tokens: completed or in progress
         dep_maybe = deposits_done + sum(1 for i, p in enumerate(progs)
                                         if begun[i] and done_idx[i] < len(p) and p[done_idx[i]] == D)
-        # the prelude ran alone: its withdrawals were granted at most floor(balance/cost) times each time;
-        # bound it from the state: funds = initial + all deposits (prelude + workers so far)
-        if kind == 0 and not pre:
-            if grants * cost + bal > bal0 + dep_maybe * amount:
-                return "conservation violated after entry %d: grants %d * %d + balance %d > initial %d + deposits %d * %d" % (
-                    k, grants, cost, bal, bal0, dep_maybe, amount)
-        if kind == 1:
-            if grants * cost + bal > bal0 + (dep_maybe + pre_deps) * amount:
-                return "conservation violated after entry %d: grants %d * %d + balance %d > initial %d + deposits %d * %d" % (
-                    k, grants, cost, bal, bal0, dep_maybe + pre_deps, amount)
+        if grants * cost + bal > bal0 + dep_maybe * amount:
+            return "conservation violated after entry %d: grants %d * %d + balance %d > initial %d + deposits %d * %d" % (
+                k, grants, cost, bal, bal0, dep_maybe, amount)
     # final state (everything completed)
     fb, fc = final
-    g_all = sum(1 for (st, rs), p in zip(per, progs) for r, c in zip(rs, p) if c == W and r == 1)
+    g_all = sum(1 for (st, rs), p in zip(per, progs) for r, c in zip(rs, p) if c == W and r == 1) + pre_grants
     d_all = sum(1 for p in progs for c in p if c == D) + pre_deps
     for (st, rs), p in zip(per, progs):
         for r, c in zip(rs, p):
@@ -300,9 +297,14 @@ def monitor(s, t):
         return "final balance %d outside [0, %d]" % (fb, cap)
     if kind == 1 and not (params[0] <= fc <= params[1]):
         return "final AIMD ceiling %d outside [%d, %d]" % (fc, params[0], params[1])
-    # linearizability of the token bucket (no prelude, all steps inside the schedule are observed)
-    if kind == 0 and not pre:
+    # linearizability of the token bucket: prelude, then the completions in the order of the
+    # completing steps, then the sequential tail
+    if kind == 0:
         bal = bal0
+        for c, r0 in zip(pre, pre_rets):
+            r, bal = seq_op(0, params, bal, 0, c)
+            if r != r0:
+                return "prelude call %d returned %d, sequential object returns %d" % (c, r0, r)
         idx = [0] * len(progs)
         for k, (op, done, snap, _) in enumerate(entries):
             if op != 0 and done != -1:
@@ -341,7 +343,7 @@ def classify(s, t):
     out = ["token_bucket" if kind == 0 else "aimd_budget", "workers%d" % len(progs)]
     if sp is None:
         return out + ["malformed"]
-    entries, per, final = sp
+    entries, per, final, pre_rets = sp
     cas = sum(1 for e in entries if e[0] == 3)
     comp = sum(1 for e in entries if e[1] != -1)
     # a failed CAS = a cas step that neither completed a call nor (deposit of the AIMD budget) moved on:
